@@ -33,7 +33,7 @@ ASSUMPTIONS = ["grid gaps shorter than the roll window (expiry - last trading da
                "chain spans cover the process clock (K3 is reported under C10 only)"]
 REQUIRED = ["C11:lead-resolution", "C11:never-past-last-trading", "C11:monotone", "C11:others-flat", "C11:not-held-at-expiry",
             "C11:roll-closes-old-lead", "C11:new-lead-at-own-quotes"]
-REQUIRED_CATS = ["second-episode-on-same-chain", "rolled-while-holding-below-threshold", "another-chain-environment-later-in-time", "market-data-keyed-by-chain", "resolution:explicit-unsorted-list", "roll-inside-latency-window", "rolling:ES", "rolling:NK", "rolling:VX", "rolling:ZN", "rolled-while-holding"]
+REQUIRED_CATS = ["resolution:copied-chain", "second-episode-on-same-chain", "rolled-while-holding-below-threshold", "another-chain-environment-later-in-time", "market-data-keyed-by-chain", "resolution:explicit-unsorted-list", "roll-inside-latency-window", "rolling:ES", "rolling:NK", "rolling:VX", "rolling:ZN", "rolled-while-holding"]
 REQUIRED_HITS = ["Broker.transact", "Broker.rebalance"]
 TECHNIQUE = "runtime monitoring: complete enumeration of roll instants against a linear-scan reference; holdings invariants after every step of rolling episodes"
 LEVEL_TEXT = ("Roll instants of every built-in class are enumerated completely per decade (exact instant and +-1us) against an "
@@ -67,6 +67,15 @@ def sys_case(ctx, j, tier):
         rng.shuffle(listed)
         ch = FutureChain(contracts=listed, month=month)
         ctx.cat("resolution:explicit-unsorted-list")
+    if j % 3 == 2:
+        # the chain object went through a copy (a copied action space or environment, a pickle to a worker
+        # process): it designates the same contracts as the chain it was copied from
+        import copy
+        import pickle
+        how = rng.choice(["copy", "deepcopy", "pickle"])
+        ch = {"copy": copy.copy, "deepcopy": copy.deepcopy, "pickle": lambda x: pickle.loads(pickle.dumps(x))}[how](ch)
+        ctx.cat("resolution:chain-" + how)
+        ctx.cat("resolution:copied-chain")
     ltds = [pydt(c.last_trading_date) for c in ch.contracts]
     usable = ltds[: len(ltds) - 1 - month - 1]
     inst = []
